@@ -48,6 +48,7 @@ type harnessSpec struct {
 	TimeoutS int
 	SymAllocLimit int64
 	Overrides map[string]string // function full name -> harness function name (same package)
+	Gen string // "builders": generate the builder harness from the package types before loading
 	ExpectViolation bool // reachability twin: the harness must be violated (vacuity guard)
 }
 
